@@ -59,10 +59,11 @@ Definition read_mounted (m : option vol) (now id : N) : option (Z * view) :=
 Definition no_live_entry (s : cvol) : bool :=
   forallb (fun e => size_deleted (ie_size e)) (ecx_file s).
 
-(* finding 2: WriteDatFile computes its number of large block rows from FindDatFileSize,
-   "(datFileSize-1)/(DataShardsCount*largeBlockSize)" style loop bound of the encoder on
-   the real size: nLargeBlockRows = (size-1)/(largeBlockLength*DataShardsCount), int64
-   division truncating toward zero.  [L] = large block size. *)
+(* finding 2: the encoder lays the shards out for the real .dat size, WriteDatFile copies
+   large blocks "for datFileSize > DataShardsCount*largeBlockSize" starting from the size
+   FindDatFileSize returned: both write/read (size-1)/(10*large) large rows (int64 division,
+   truncating), and they differ when the live part ends in an earlier large row.
+   [L] = large block size. *)
 Definition large_rows (L : Z) (size : N) : Z := Z.quot (Z.of_N size - 1) (L * 10).
 Definition fewer_large_rows (L : Z) (s : cvol) : bool :=
   (large_rows L (dat_size s) <? large_rows L (dat_end (cv s)))%Z.
